@@ -454,6 +454,38 @@ func (f *FuncCtx) specCall(e *ast.CallExpr, env *Env) ([]Val, bool) {
 			return []Val{f.boolVal(fmt.Sprintf("(forall ((%s %s)) (=> %s %s))", q, f.S.SortOf(t), guard, body.T))}, true
 		}
 		return []Val{f.boolVal(fmt.Sprintf("(exists ((%s %s)) (and %s %s))", q, f.S.SortOf(t), guard, body.T))}, true
+	case "atentry":
+		if sc.loopEntry == nil {
+			f.fail("atentry() outside a loop invariant")
+			return []Val{f.boolVal("true")}, true
+		}
+		return []Val{f.specExpr(e.Args[0], sc.loopEntry.clone())}, true
+	case "inner":
+		// inner(e): names resolved at the real position of the call inside an inlined closure
+		// (closure parameters and locals), not at the outermost call site
+		if sc.innerPos == token.NoPos {
+			return []Val{f.specExpr(e.Args[0], env)}, true
+		}
+		saved := sc.pos
+		sc.pos = sc.innerPos
+		v := f.specExpr(e.Args[0], env)
+		sc.pos = saved
+		return []Val{v}, true
+	case "lastarg":
+		// lastarg("callee", k): k-th argument of the most recent call to callee
+		name := exprStr(e.Args[0])
+		if bl, ok := e.Args[0].(*ast.BasicLit); ok && bl.Kind == token.STRING {
+			if u, err := strconv.Unquote(bl.Value); err == nil {
+				name = u
+			}
+		}
+		var k int
+		fmt.Sscanf(exprStr(e.Args[1]), "%d", &k)
+		if v, ok := env.names[fmt.Sprintf("lastarg:%s:%d", name, k)]; ok {
+			return []Val{v}, true
+		}
+		f.fail("lastarg(%s, %d): no such call recorded before this point", name, k)
+		return []Val{f.boolVal("true")}, true
 	case "res":
 		// res(i, call): i-th result of a multi-value call
 		var k int
